@@ -21,8 +21,10 @@ PROPOSED_KNOWN = {
 @register("C12")
 def c12(ctx):
     ctx.assumptions += [
-        "C12: the ECMAScript grammar itself is represented by V8 (node 20, `new RegExp(p, f)` throws SyntaxError) on the explored "
-        "inputs: grammar agreement is validated, not proved; flag `v` is outside the property; V8 clamps quantifier bounds to "
+        "C12: agreement of the validator model with the ES2022 grammar (coq/Regex/Grammar.v, written from the standard) is proved on "
+        "in_fragment (C12_fragment_equiv: everything but named groups, \\k, property escapes and decimal numbers >= 2^63); beyond it, and "
+        "for Grammar.v itself, the grammar is represented by V8 (node 20, `new RegExp(p, f)` throws SyntaxError) on the explored inputs: "
+        "there agreement is validated, not proved; flag `v` is outside the property; V8 clamps quantifier bounds to "
         "2^31-1 before comparing them (`a{4294967296,4294967295}` accepted) - there V8 deviates from the specification and the "
         "case is excluded from the comparison, not counted against the implementation",
         "C12: modelled rather than verified: js_regex/{reader,validator,unicode}.rs and check_regex of no_invalid_regexp.rs as "
